@@ -378,8 +378,9 @@ def step (s : St) (w : List String) : St × String :=
     match n.toNat?, s.codec with
     | some n, .cobs v =>
       let (r, st) := decodeQuery v s.dst n
-      -- a reset in mid-stream forgets the open block: the spec no longer follows the frames
-      let s' := { s with dst := st, fstart := if n = 0 then none else s.fstart }
+      -- a reset forgets the frame in progress: the framing starts again at the input position (where the spec
+      -- followed the frames so far)
+      let s' := { s with dst := st, fstart := if n = 0 then s.fstart.map (fun _ => st.curr) else s.fstart }
       (s', decLine s' r false "* ; *")
     | some _, .command =>
       let s' := { s with dst := {}, fstart := none }
